@@ -1,6 +1,7 @@
 """Shared machinery of the accfg family (C01, C06, C07): program generator (MLIR text), abstract CSR
 machine on xDSL IR (oracle semantics), conversion of the real IR to the Lean model's AST."""
 import random
+import re
 
 import compat  # noqa: F401
 import snaxrun
@@ -39,6 +40,7 @@ class Gen:
         self.cfg_hist = {}
         self.force_scope = None
         self.focus_acc = None
+        self.bare = 0.0  # probability that a setup/launch statement is a bare launch on a visible state instead
 
     def loop_bounds(self):
         """(lb, ub, step) SSA names: function arguments (run-time trip counts) or index constants, including empty
@@ -80,6 +82,7 @@ class Gen:
         out = [f'{ind}{s} = accfg.setup "{acc}"{frm} to ({params}) : {st_ty(acc)}']
         cur[acc] = s
         hist.append(s)
+        cur.setdefault("_vis_" + acc, []).append(s)
         nl = 1 if self.r.random() < 0.8 else 2
         for _ in range(nl):
             if self.launch_vals:
@@ -113,6 +116,24 @@ class Gen:
                 self.scope_accs.pop()
         return self._block(vals, depth, ind, nst, cur)
 
+    def _child(self, cur):
+        """scope of a nested block: the states visible from the enclosing blocks stay visible"""
+        return {k: list(v) for k, v in cur.items() if k.startswith("_vis_")}
+
+    def bare_launch(self, ind, cur):
+        """launch + await on a state that is visible here but not necessarily current (no setup in front): 're-run with whatever is
+        configured now' -- after state tracing this is a launch on the current state of the block"""
+        cands = [(a, cur["_vis_" + a]) for a in self.scope_accs[-1] if cur.get("_vis_" + a)]
+        if not cands:
+            return []
+        acc, names = self.r.choice(cands)
+        s, t = names[-1] if self.r.random() < 0.7 else self.r.choice(names), self.fresh("t")
+        if self.launch_vals:
+            la = f'{ind}{t} = "accfg.launch"(%lv, {s}) <{{param_names = ["launch"], accelerator = "{acc}"}}> : (i5, {st_ty(acc)}) -> !accfg.token<"{acc}">'
+        else:
+            la = f'{ind}{t} = "accfg.launch"({s}) <{{param_names = [], accelerator = "{acc}"}}> : ({st_ty(acc)}) -> !accfg.token<"{acc}">'
+        return [la, f'{ind}"accfg.await"({t}) : (!accfg.token<"{acc}">) -> ()']
+
     def _block(self, vals, depth, ind, nst, cur):
         out = []
         vals = list(vals)
@@ -134,7 +155,9 @@ class Gen:
                     k, self.force_scope = 0.9, self.r.choice([[x], others, self.accs])
                 else:
                     k = 0.5
-            if k < 0.42:
+            if k < 0.42 and self.bare and self.r.random() < self.bare:
+                out += self.bare_launch(ind, cur)
+            elif k < 0.42:
                 if self.force_scope is not None:
                     self.scope_accs.append(self.force_scope)
                     out += self.setup_launch(vals, ind, cur)
@@ -149,11 +172,11 @@ class Gen:
                 vals.append(v)
             elif k < 0.58 and self.nests:
                 out += self.effect_nest(ind, self.r.randint(1, 3))
-                for _k in [k for k in cur if not k.startswith('_hist_')]:
+                for _k in [k for k in cur if not k.startswith('_')]:
                     del cur[_k]
             elif k < 0.61:
                 out.append(f"{ind}func.call @g() : () -> ()")
-                for _k in [k for k in cur if not k.startswith('_hist_')]:
+                for _k in [k for k in cur if not k.startswith('_')]:
                     del cur[_k]
             elif k < 0.66:
                 out.append(f'{ind}func.call @g() {{"accfg.effects" = #accfg.effects<none>}} : () -> ()')
@@ -163,20 +186,20 @@ class Gen:
                     # the conditional yields a data value that later setups use
                     r = self.fresh("r")
                     out.append(f"{ind}{r} = scf.if {c} -> (i32) {{")
-                    out += self.block(vals, depth - 1, ind + "  ", self.r.randint(0, 3), {})
+                    out += self.block(vals, depth - 1, ind + "  ", self.r.randint(0, 3), self._child(cur))
                     out.append(f"{ind}  scf.yield {self.r.choice(vals)} : i32")
                     out.append(f"{ind}}} else {{")
-                    out += self.block(vals, depth - 1, ind + "  ", self.r.randint(0, 2), {})
+                    out += self.block(vals, depth - 1, ind + "  ", self.r.randint(0, 2), self._child(cur))
                     out.append(f"{ind}  scf.yield {self.r.choice(vals)} : i32")
                     out.append(f"{ind}}}")
                     vals += [r, r]
                 else:
                     out.append(f"{ind}scf.if {c} {{")
-                    out += self.block(vals, depth - 1, ind + "  ", self.r.randint(0, 3), {})
+                    out += self.block(vals, depth - 1, ind + "  ", self.r.randint(0, 3), self._child(cur))
                     out.append(f"{ind}}} else {{")
-                    out += self.block(vals, depth - 1, ind + "  ", self.r.randint(0, 2), {})
+                    out += self.block(vals, depth - 1, ind + "  ", self.r.randint(0, 2), self._child(cur))
                     out.append(f"{ind}}}")
-                for _k in [k for k in cur if not k.startswith('_hist_')]:
+                for _k in [k for k in cur if not k.startswith('_')]:
                     del cur[_k]
             elif depth > 0:
                 i, ii = self.fresh("i"), self.fresh()
@@ -192,7 +215,7 @@ class Gen:
                     out.append(f"{ind}{', '.join(rs)} = scf.for {i} = {lbn} to {ubn} step {stn} iter_args({ia}) -> ({tys}) {{")
                     out.append(f"{ind}  {ii} = arith.index_cast {i} : index to i32")
                     inner = vals + [ii] + ps + ps
-                    out += self.block(inner, depth - 1, ind + "  ", self.r.randint(1, 4), {})
+                    out += self.block(inner, depth - 1, ind + "  ", self.r.randint(1, 4), self._child(cur))
                     nxt = []
                     for p in ps:
                         v = self.fresh()
@@ -204,9 +227,9 @@ class Gen:
                 else:
                     out.append(f"{ind}scf.for {i} = {lbn} to {ubn} step {stn} {{")
                     out.append(f"{ind}  {ii} = arith.index_cast {i} : index to i32")
-                    out += self.block(vals + [ii], depth - 1, ind + "  ", self.r.randint(1, 4), {})
+                    out += self.block(vals + [ii], depth - 1, ind + "  ", self.r.randint(1, 4), self._child(cur))
                     out.append(f"{ind}}}")
-                for _k in [k for k in cur if not k.startswith('_hist_')]:
+                for _k in [k for k in cur if not k.startswith('_')]:
                     del cur[_k]
             if depth == self.depth:
                 self.force_scope = None
@@ -239,6 +262,221 @@ class Gen:
                 + ("  %lv = arith.constant 1 : i5\n" if self.launch_vals else "")
                 + "".join(f"  %k{k} = arith.constant {k} : index\n" for k in range(5))
                 + "\n".join(body) + "\n  func.return\n}\n")
+
+
+def redundancy_program(rng: random.Random):
+    """Small programs over ONE accelerator whose setups draw from three configurations that differ in one field each: a prefix,
+    a loop whose body alternates / restores configurations (also inside conditionals and an inner loop), a suffix.  The space
+    where the legality conditions of the dedup patterns (loop-invariance, redundancy with the loop-entry state, launches in
+    between) decide the outcome."""
+    g = Gen(rng, full=True, depth=2, accs=ACCS[:1])
+    acc = ACCS[0]
+    fields = FIELDS[acc]
+    args = [f"%x{i}" for i in range(NARGS)]
+    base = {f: args[i % len(args)] for i, f in enumerate(fields)}
+    cfgs = [dict(base)]
+    for _ in range(2):
+        c = dict(base)
+        c[rng.choice(fields)] = rng.choice(args)
+        cfgs.append(c)
+
+    def cfg():
+        return cfgs[rng.choices([0, 1, 2], weights=[6, 3, 2])[0]]
+
+    def sl(ind, c=None):
+        c = c or cfg()
+        s_, t = g.fresh("s"), g.fresh("t")
+        params = ", ".join(f'"{f}" = {c[f]} : i32' for f in fields)
+        return [f'{ind}{s_} = accfg.setup "{acc}" to ({params}) : {st_ty(acc)}',
+                f'{ind}{t} = "accfg.launch"(%lv, {s_}) <{{param_names = ["launch"], accelerator = "{acc}"}}> : (i5, {st_ty(acc)}) -> !accfg.token<"{acc}">',
+                f'{ind}"accfg.await"({t}) : (!accfg.token<"{acc}">) -> ()']
+
+    def items(ind, n, depth):
+        out = []
+        for _ in range(n):
+            u = rng.random()
+            if u < 0.5 or depth == 0:
+                out += sl(ind)
+            elif u < 0.8:
+                out += [f"{ind}scf.if {rng.choice(['%c0', '%c1'])} {{"] + sl(ind + "  ") + [f"{ind}}} else {{"] + sl(ind + "  ") + [f"{ind}}}"]
+            elif u < 0.9:
+                out += [f"{ind}scf.if {rng.choice(['%c0', '%c1'])} {{"] + sl(ind + "  ") + [f"{ind}}} else {{", f"{ind}}}"]
+            else:
+                lbn, ubn, stn = g.loop_bounds()
+                out += [f"{ind}scf.for {g.fresh('i')} = {lbn} to {ubn} step {stn} {{"] + items(ind + "  ", rng.randint(1, 2), depth - 1) + [f"{ind}}}"]
+        return out
+
+    body = []
+    for _ in range(rng.randint(1, 2)):
+        body += sl("  ")
+    lbn, ubn, stn = g.loop_bounds()
+    body += [f"  scf.for {g.fresh('i')} = {lbn} to {ubn} step {stn} {{"] + items("    ", rng.choice([2, 3, 3, 3, 4]), 1) + ["  }"]
+    for _ in range(rng.randint(0, 1)):
+        body += sl("  ")
+    sig = ", ".join([f"%x{i} : i32" for i in range(NARGS)] + ["%c0 : i1", "%c1 : i1"]
+                    + [f"%{n}{b} : index" for b in range(NBOUNDS) for n in ("lb", "ub", "st")])
+    return ("func.func private @g() -> ()\n" f"func.func @f({sig}) {{\n" "  %lv = arith.constant 1 : i5\n"
+            + "".join(f"  %k{k} = arith.constant {k} : index\n" for k in range(5)) + "\n".join(body) + "\n  func.return\n}\n")
+
+
+# ---------------------------------------------------------------------------------------------
+# text-level mutations of generated programs (used by the failing-input search around a program on which model and code disagree)
+
+_SETUP_RE = re.compile(r'^(\s*)(%s\d+) = accfg\.setup "(\w+)"( from %\w+)? to \((.*)\) : (.*)$')
+
+
+def mutate_src(src: str, rng: random.Random):
+    """one random small change that keeps the program in the generator's form (validity is checked by the caller with verify()):
+    copy the configuration of another setup / change one value / drop a setup (its launches then run on an earlier state) /
+    add a launch on an earlier state"""
+    lines = src.split("\n")
+    setups = [(i, m) for i, l in enumerate(lines) if (m := _SETUP_RE.match(l))]
+    if not setups:
+        return None
+    end = next((i for i, l in enumerate(lines) if "func.return" in l), len(lines) - 1)
+    k = rng.random()
+    i, m = rng.choice(setups)
+    ind, name, acc, frm, params, ty = m.groups()
+    if k < 0.12:
+        loops = [j for j, l in enumerate(lines) if re.search(r"scf\.for %\w+ = %\w+ to %\w+ step %\w+", l)]
+        if not loops:
+            return None
+        j = rng.choice(loops)
+        b = rng.randrange(NBOUNDS)
+        lines[j] = re.sub(r"= %\w+ to %\w+ step %\w+", f"= %lb{b} to %ub{b} step %st{b}", lines[j], count=1)
+        return "\n".join(lines)
+    if k < 0.24:
+        # copy of a setup + launch + await (fresh names) at another position
+        pos = rng.randrange(next(j for j, l in enumerate(lines) if l.startswith("func.func @f")) + 1, end + 1)
+        u = rng.randrange(10 ** 6)
+        ind2 = re.match(r"\s*", lines[pos]).group(0) if pos < len(lines) else "  "
+        grp = [f'{ind2}%s{u} = accfg.setup "{acc}" to ({params}) : {ty}']
+        if '"accfg.launch"(%lv' in src:
+            grp.append(f'{ind2}%tm{u} = "accfg.launch"(%lv, %s{u}) <{{param_names = ["launch"], accelerator = "{acc}"}}> : (i5, {st_ty(acc)}) -> !accfg.token<"{acc}">')
+        else:
+            grp.append(f'{ind2}%tm{u} = "accfg.launch"(%s{u}) <{{param_names = [], accelerator = "{acc}"}}> : ({st_ty(acc)}) -> !accfg.token<"{acc}">')
+        grp.append(f'{ind2}"accfg.await"(%tm{u}) : (!accfg.token<"{acc}">) -> ()')
+        lines[pos:pos] = grp
+        return "\n".join(lines)
+    k = (k - 0.24) / 0.76
+    if k < 0.3:
+        same = [mm for j, mm in setups if mm.group(3) == acc and j != i]
+        if not same:
+            return None
+        new = rng.choice(same).group(5).split(", ")
+        old = params.split(", ")
+        if len(new) == len(old) and rng.random() < 0.5:
+            q = rng.randrange(len(new))
+            new[q] = old[q]
+        lines[i] = f'{ind}{name} = accfg.setup "{acc}"{frm or ""} to ({", ".join(new)}) : {ty}'
+    elif k < 0.5:
+        ps = params.split(", ")
+        q = rng.randrange(len(ps))
+        vals = sorted(set(re.findall(r"%(?:x|v|r|p)\d+", src)))
+        mm = re.match(r'"(\w+)" = (%\w+) : i32', ps[q])
+        if not mm or not vals:
+            return None
+        ps[q] = f'"{mm.group(1)}" = {rng.choice(vals)} : i32'
+        lines[i] = f'{ind}{name} = accfg.setup "{acc}"{frm or ""} to ({", ".join(ps)}) : {ty}'
+    elif k < 0.75:
+        earlier = [mm.group(2) for j, mm in setups if j < i and mm.group(3) == acc]
+        if not earlier:
+            return None
+        tgt = rng.choice(earlier)
+        del lines[i]
+        lines = [re.sub(re.escape(name) + r"\b", tgt, l) for l in lines]
+    else:
+        if i + 1 >= end:
+            return None
+        pos = rng.randrange(i + 1, end + 1)
+        t = f"%tm{rng.randrange(10 ** 6)}"
+        ind2 = re.match(r"\s*", lines[pos]).group(0) if pos < len(lines) else "  "
+        if '"accfg.launch"(%lv' in src:
+            la = f'{ind2}{t} = "accfg.launch"(%lv, {name}) <{{param_names = ["launch"], accelerator = "{acc}"}}> : (i5, {st_ty(acc)}) -> !accfg.token<"{acc}">'
+        else:
+            la = f'{ind2}{t} = "accfg.launch"({name}) <{{param_names = [], accelerator = "{acc}"}}> : ({st_ty(acc)}) -> !accfg.token<"{acc}">'
+        lines[pos:pos] = [la, f'{ind2}"accfg.await"({t}) : (!accfg.token<"{acc}">) -> ()']
+    return "\n".join(lines)
+
+
+def _stmt_spans(lines, lo, hi):
+    """top-level statements of lines[lo:hi] as (start, end) spans; a statement with regions runs to its closing brace"""
+    spans, i = [], lo
+    while i < hi:
+        depth, j = 0, i
+        while j < hi:
+            l = lines[j].strip()
+            opens, closes = l.endswith("{"), l.startswith("}")
+            if closes:
+                depth -= 1
+            if opens:
+                depth += 1
+            j += 1
+            if depth <= 0:
+                break
+        spans.append((i, j))
+        i = j
+    return spans
+
+
+def shrink_src(src: str):
+    """structural shrinking candidates, largest first: delete a whole statement (with its regions), replace a conditional by one of
+    its branches, delete a setup together with the launches/awaits that follow it, delete a single line"""
+    lines = src.split("\n")
+    start = next((i for i, l in enumerate(lines) if l.startswith("func.func @f")), 0) + 1
+    end = next((i for i, l in enumerate(lines) if "func.return" in l), len(lines))
+
+    def rec(lo, hi):
+        spans = _stmt_spans(lines, lo, hi)
+        for (a, b) in sorted(spans, key=lambda ab: ab[0] - ab[1]):
+            if "arith.constant" in lines[a] and "%k" in lines[a] or "%lv =" in lines[a]:
+                continue
+            yield lines[:a] + lines[b:]
+        for (a, b) in spans:
+            if b - a > 1:
+                head = lines[a].strip()
+                inner = [k for k in range(a + 1, b - 1)]
+                els = next((k for k in inner if lines[k].strip() == "} else {" and _depth_at(lines, a, k) == 1), None)
+                if head.startswith("scf.if") and els is not None:
+                    yield lines[:a] + lines[a + 1:els] + lines[b:]
+                    yield lines[:a] + lines[els + 1:b - 1] + lines[b:]
+                    yield from rec(a + 1, els)
+                    yield from rec(els + 1, b - 1)
+                else:
+                    yield from rec(a + 1, b - 1)
+        for (a, b) in spans:
+            if "accfg.setup" in lines[a]:
+                k = a + 1
+                while k < hi and ("accfg.launch" in lines[k] or "accfg.await" in lines[k] or "arith." in lines[k]):
+                    k += 1
+                    yield lines[:a] + lines[k:]
+
+    seen = set()
+    for cand in rec(start, end):
+        t = "\n".join(cand)
+        if t != src and t not in seen:
+            seen.add(t)
+            yield t
+
+
+def _depth_at(lines, a, k):
+    d = 0
+    for j in range(a, k + 1):
+        l = lines[j].strip()
+        if l.startswith("}"):
+            d -= 1
+        if l.endswith("{"):
+            d += 1
+    return d
+
+
+def mutants(case, rng: random.Random, n=10 ** 9):
+    for _ in range(n):
+        src = case["src"]
+        for _ in range(rng.choice([1, 1, 2, 3])):
+            src = mutate_src(src, rng) or src
+        if src != case["src"]:
+            yield dict(case, src=src)
 
 
 # ---------------------------------------------------------------------------------------------
